@@ -224,7 +224,8 @@ def ensure_kind(desc, kind, rng):
             s['norm_y'] = 500.0
 
 
-def gen_problem(rng, want_kinds=None, all_bounded=None, nvars=None, paraxial_only=False, one_sided=False):
+def gen_problem(rng, want_kinds=None, all_bounded=None, nvars=None, paraxial_only=False, one_sided=False,
+                coupled=False):
     """JSON-able problem descriptor: lens, pickups, solves, variables, operands"""
     for _attempt in range(50):
         poly = rng.random() < 0.3
@@ -263,6 +264,21 @@ def gen_problem(rng, want_kinds=None, all_bounded=None, nvars=None, paraxial_onl
             idx = rng.choice([n + 1, n + 1, rng.randint(2, n + 1)])
             solves.append({'idx': idx, 'height': 0.0 if idx == n + 1 else dyadic(rng, 0.25, 1.5, 3)})
             written.add(('thickness', idx - 1))
+        if coupled:
+            # a radius pickup whose target lies in front of an image-distance solve, the source radius a variable:
+            # every update() has to apply the pickup before the solve
+            curved = [k for k in range(1, n + 1) if desc['surfaces'][k]['radius'] != 'inf'
+                      and desc['surfaces'][k].get('surface_type', 'standard') == 'standard']
+            if len(curved) < 2:
+                continue
+            src, tgt = rng.sample(curved, 2)
+            pickups = [{'src': src, 'attr': 'radius', 'tgt': tgt, 'scale': rng.choice([1.0, -1.0, 0.5, 2.0]),
+                        'offset': dyadic(rng, -2, 2, 3)}]
+            solves = [{'idx': n + 1, 'height': 0.0}]
+            written = {('radius', tgt), ('thickness', n)}
+            want_kinds = ['radius']
+            cand = [c for c in candidates(desc, rng)
+                    if (c['type'], c['surface_number']) == ('radius', src)] + cand
         cand = [c for c in cand if (c['type'], c['surface_number']) not in written]
         if not cand:
             continue
@@ -278,6 +294,14 @@ def gen_problem(rng, want_kinds=None, all_bounded=None, nvars=None, paraxial_onl
         rng.shuffle(pool)
         if want_kinds:
             pool.sort(key=lambda c: 0 if c['type'] in want_kinds else 1)
+        if pickups and (coupled or rng.random() < 0.6):
+            # the source of a pickup as a variable: every probe of the optimiser must carry the target along, and
+            # a solve behind the target must see the new target (order of pickups and solves in update())
+            srcs = [c for c in pool if any(c['type'] == p['attr'] and c['surface_number'] == p['src'] for p in pickups)]
+            pool = srcs + [c for c in pool if c not in srcs]
+        obj0 = [c for c in pool if c['type'] == 'thickness' and c['surface_number'] == 0]
+        if obj0 and rng.random() < 0.35:
+            pool = obj0 + [c for c in pool if c not in obj0]      # the object distance of a finite-conjugate lens
         mg = [c for c in pool if c.get('mangin')]
         if mg and rng.random() < 0.7:
             m = mg[0]
@@ -763,7 +787,12 @@ def run_case(ctx, lines, keep, case):
             log, _LOG = _LOG, None
             after = snap(o)
             _TOLS = [max(p, q) for p, q in zip(tols_before, var_tols(o, variables))]
-            if err is not None and 'Chebyshev input coordinates' in str(err):
+            chain, e_ = [], err
+            while e_ is not None and len(chain) < 6:
+                chain.append(str(e_))
+                e_ = e_.__cause__ or e_.__context__
+            if err is not None and any('Chebyshev input coordinates' in m for m in chain):
+                # (differential_evolution wraps an exception of the objective in its own RuntimeError)
                 # a probe left the normalisation square of a Chebyshev surface: the geometry refuses the ray
                 # (C02's domain), the run is abandoned
                 ctx.count('run abandoned: probe outside the Chebyshev normalisation square')
@@ -1093,6 +1122,9 @@ def front_cases(rng, pd, pdb, pdc, thorough, i, pdo=()):
     if i % 3 == 0 or (thorough and i % 2 == 0):
         mk(pdc, 'compensator:' + rng.choice(['generic', 'least_squares']), {'tol': rng.choice([1e-5, 1e-3])}, ['opt'])
     for k, p in enumerate(pdo):
+        if p['pickups'] and p['solves']:
+            mk(p, 'generic', {'method': rng.choice(['L-BFGS-B', 'Nelder-Mead', 'SLSQP']), 'maxiter': 4, 'disp': False,
+                              'tol': 1e-6}, ['opt', 'undo'])
         if (i + k) % 2 == 0:
             mk(p, 'least_squares', {'maxiter': rng.choice([6, 10]), 'disp': False, 'tol': 1e-8}, ['opt'])
         else:
@@ -1140,6 +1172,8 @@ def run(tier, seed, replay=None):
                     rng.setstate(base_state)      # the same lens and operands, the limit on either side
                     pdo.append(gen_problem(rng, want_kinds=[ALL_KINDS[(i // 2) % 3]], nvars=1, paraxial_only=True,
                                            one_sided=side))
+            if i % 3 == 0 or thorough:
+                pdo.append(gen_problem(rng, nvars=rng.choice([1, 2]), paraxial_only=True, coupled=True))
             for p in (pd, pdb, pdc):
                 for vi in range(len(p['variables'])):
                     variable_case(ctx, lines, keep, p, vi, rng.choice([0.0, 0.03125, -0.0625, 0.25]))
